@@ -5,7 +5,7 @@ from checklib import Scenario
 
 RULE = ("small trees with every consulted file assigned owner in {0, 1234}, group in {0, 4321} and kind in {regular, symlink "
         "to a regular file} (real chown/symlink; the check runs as root) x every combination of required owner / required group "
-        "/ no-symlink rule x readFile, readDirs, readDirsHistory, readConfig, with absolute names and (a third of the cases) names relative to the working directory; then the same read after "
+        "/ no-symlink rule x readFile, readDirs, readDirsHistory, readConfig and (40 %) their WithCallback variants with an accepting callback, with absolute names and (a third of the cases) names relative to the working directory; then the same read after "
         "econf_reset_security_settings; the oracle checks on the implementation's fopen log that no file violating a rule in "
         "force is ever opened; the specific code of the first violating file and everything else through the model; "
         "distinct by scenario")
@@ -18,8 +18,9 @@ def gen(rng, tier):
         st = laylib.setup(rng, mode=rng.choice([0, 0, 1, 2]), owners=True, links=True, relative=rel)
         ow = rng.choice(["-", "0", "1234"]); gr = rng.choice(["-", "0", "4321"]); nl = rng.choice(["0", "0", "1"])
         files = laylib.files_of(st["cmds"])
-        cmds = st["cmds"] + st["pre"] + ["sec %s %s %s" % (ow, gr, nl), st["read"], "dump 0"]
-        obs = [False] * (len(st["cmds"]) + len(st["pre"]) + 1) + [True, True]
+        cbc = ["cb reject"] if rng.random() < 0.4 else []          # the ...WithCallback entry points with a callback that accepts everything
+        cmds = st["cmds"] + st["pre"] + cbc + ["sec %s %s %s" % (ow, gr, nl), st["read"], "dump 0"]
+        obs = [False] * (len(st["cmds"]) + len(st["pre"]) + len(cbc) + 1) + [True, True]
         if st["hist"]: cmds.append(st["hist"]); obs.append(True)
         if files:
             f = rng.choice(files)
